@@ -39,6 +39,8 @@ def gen_body(draw, avail, o, name):
         body.append(["ext", name.replace("/", "_")])
     if draw(st.integers(0, 99)) < o.get("p_ifc", 15):
         body.append(["ifc", _pick(draw, o["watch"]), draw(st.integers(0, 1))])
+    if draw(st.integers(0, 99)) < o.get("p_ifcreate_raw", 0):
+        body.append(["ifcreate_raw", _pick(draw, o["watch"])])
     if draw(st.integers(0, 99)) < o.get("p_failflag", 20):
         pos = draw(st.integers(0, len(body)))
         body.insert(pos, ["failflag", name.replace("/", "_"), draw(st.sampled_from([1, 2, 7, 99]))])
